@@ -259,13 +259,22 @@ func (n *Node) Load(blocks []types.Block) {
 	}
 }
 
-// Close stops the syncer and waits (bounded) for Run to return; it reports whether it did.
+// Close stops the syncer and waits (bounded, 15 s) for Close and Run to return; it reports whether they did.
 func (n *Node) Close() bool {
-	n.S.Close()
+	// Syncer.Close waits for every goroutine of its thread group: it must not be able to hang the
+	// harness, a shutdown that does not finish is an observation ("node not alive")
+	closed := make(chan struct{})
+	go func() { n.S.Close(); close(closed) }()
+	deadline := time.After(15 * time.Second)
+	select {
+	case <-closed:
+	case <-deadline:
+		return false
+	}
 	select {
 	case <-n.done:
 		return true
-	case <-time.After(10 * time.Second):
+	case <-deadline:
 		return false
 	}
 }
